@@ -155,7 +155,7 @@ func c16arrCanon(a *gozxing.BitArray) string {
 }
 
 func c16arrFull(a *gozxing.BitArray) string {
-	return c16arrCanon(a) + fmt.Sprintf(",L=%d", len(a.GetBitArray()))
+	return c16arrCanon(a)
 }
 
 func c16matState(m *gozxing.BitMatrix) string {
